@@ -20,6 +20,7 @@ at hand) as an explicit hypothesis.
 -/
 import Props.C09
 import Martian.LexerLRSem
+import Proofs.TieC09
 
 namespace Props.C09
 open Martian.FormatExp Martian.LexerLR Martian.FormatCall Martian.FormatCall2
@@ -99,5 +100,28 @@ theorem format_call_then_goyacc_parse_partial (h : LRCallAgrees) (c : Call2) (hw
     parseCallLR (fmtCall2 [] c) = some (normCall2 c) := by
   rw [goyacc_parse_call_eq_reader_partial h]
   exact parse_format_call2 c hw
+
+/-! ### translated definitions (by x-c07; development in Proofs/TieC09.lean)
+
+`Gen.tr_idWidth` / `Gen.tr_BindStmFormat` are TRANSLATED from
+martian/syntax/format_callable.go on every run (TRANSLATOR.md). -/
+
+/-- the first loop of `BindStms.format` (records, `break`), on the ids of ANY list
+of bindings, computes the model's `idWidthGo`; demands that the definition was
+really extracted from the tree under test (not the committed default) -/
+theorem tr_idWidth_eq_model (bs : List Martian.FormatCall.Bind) :
+    Gen.tr_idWidth_extracted = true ∧
+    Gen.tr_idWidth (bs.map (·.id)) = Int.ofNat (Martian.FormatCall2.idWidthGo bs) :=
+  ⟨by decide, Proofs.TieC09.tr_idWidth_eq_model bs⟩
+
+/-- `BindStm.format` (byte trace of the printer) with the column width `w` is the
+model's `fmtBind`; extracted from the tree under test -/
+theorem tr_BindStmFormat_eq_model (p : List UInt8) (w : Nat) (b : Martian.FormatCall.Bind) :
+    Gen.tr_BindStmFormat_extracted = true ∧
+    Gen.tr_BindStmFormat p (Int.ofNat w) b.id
+        (fun q => (if b.split then Martian.FormatExp.sSplit ++ [0x20] else []) ++ Martian.FormatExp.fmt q b.exp) =
+      Martian.FormatCall2.fmtBind p w b :=
+  ⟨by decide, Proofs.TieC09.tr_BindStmFormat_eq_model p w b⟩
+
 
 end Props.C09
